@@ -351,6 +351,25 @@ def run(ctx: Ctx) -> int:
                 ctx.oblige("C11.b", ok, s, why, fn=m, construct=f"{name} vs {kind} parent")
     ctx.floor("C11.b-consumers", n_cons, 3)
 
+    # ---------------- C11.d ---------------------------------------------------
+    # as_dict converts containers element for element: no comprehension in it filters elements away, and a list /
+    # dict is only converted when ALL its elements are namespaces (mixed containers are left as they are)
+    asd = ctx.func("_namespace:Namespace.as_dict")
+    comps = [n_ for n_ in walk_local(asd) if isinstance(n_, (ast.ListComp, ast.DictComp, ast.SetComp)) and not isinstance(getattr(n_, "_jv_parent", None), ast.Call)]
+    ctx.floor("C11.d-as_dict-comprehensions", len(comps), 2)
+    for cmp_ in comps:
+        filtered = [t for g_ in cmp_.generators for t in g_.ifs]
+        guards_ = [ast.unparse(t) for t, pol in guard_chain(cmp_, stop=asd) if pol]
+        quant_ok = any("all(" in g_ for g_ in guards_) and not any("any(" in g_ for g_ in guards_)
+        ok = not filtered and quant_ok
+        ctx.oblige(
+            "C11.d",
+            ok,
+            cmp_,
+            "this container is converted element for element, and only when all its elements are namespaces" if ok else "as_dict drops elements (filtered comprehension) or converts a mixed container: a list with a null or scalar next to class specs comes out shorter, so the dumped configuration re-parses to a different value",
+            fn=asd,
+        )
+
     return ctx.finish(
         explanation=(
             "File-local key-kind analysis of _namespace.py: every key that reaches object storage passed add_clash_mark, every lookup uses a marked (or raw __dict__) key, every key that "
